@@ -61,6 +61,34 @@ func decideImpl(r *core.Result, c *ipa.IPAConfig, t tuple, desc string) (ok bool
 	return
 }
 
+// decideImplShared is decideImpl with one *Element per distinct commitment value: openings of the same
+// commitment share the pointer (the usual way a caller passes one commitment opened at several points).
+func decideImplShared(r *core.Result, c *ipa.IPAConfig, t tuple, desc string) (ok bool, err error, ran bool) {
+	Cs := make([]*banderwagon.Element, len(t.Cs))
+	for i := range t.Cs {
+		for j := 0; j < i; j++ {
+			if t.Cs[j] == t.Cs[i] {
+				Cs[i] = Cs[j]
+				break
+			}
+		}
+		if Cs[i] == nil {
+			e := t.Cs[i]
+			Cs[i] = &e
+		}
+	}
+	ys := make([]*fr.Element, len(t.ys))
+	for i := range t.ys {
+		y := t.ys[i]
+		ys[i] = &y
+	}
+	proof := &multiproof.MultiProof{D: t.D, IPA: ipa.IPAProof{L: append([]banderwagon.Element(nil), t.L...), R: append([]banderwagon.Element(nil), t.R...), A_scalar: t.A}}
+	ran = guard(r, "c02.panic", "CheckMultiProof", desc, func() {
+		ok, err = multiproof.CheckMultiProof(common.NewTranscript(t.label), c, proof, Cs, ys, append([]uint8(nil), t.zs...))
+	})
+	return
+}
+
 func decideRef(t tuple) (acc, shape bool) {
 	Cs := make([]ref.Pt, len(t.Cs))
 	for i := range t.Cs {
@@ -485,10 +513,83 @@ func c02Units(ctx *core.Ctx) []core.Unit {
 		}
 		r.Sample(map[string]interface{}{"openings": n, "variants": "honest; wrong y at 1024; compensating wrong claims at 1023/1024; transposition 1023<->1024"})
 	}})
+	us = append(us, core.Unit{Name: "statements whose repeated commitments share one pointer (all partitions of 4, selected of 5)", Run: func(ctx *core.Ctx, r *core.Result) {
+		needRef()
+		c := conf()
+		polys := polyAlphabet(ctx.Seed)
+		pats := []string{"AAAA", "AAAB", "AABA", "ABAA", "ABBB", "AABB", "ABAB", "ABBA", "AABC", "ABAC", "ABCA", "ABBC", "ABCB", "ABCC", "ABCD", "AABCB", "AABBC", "ABCAB", "AABAC"}
+		for pi2, pat := range pats {
+			st := stmt{label: "vt"}
+			for i, ch := range pat {
+				k := int(ch - 'A')
+				st.polys = append(st.polys, []namedPoly{polys[10], polys[12], polys[8], polys[13]}[k])
+				st.share = append(st.share, k+1)
+				st.zs = append(st.zs, []int{7, 9, 200, 9, 7}[(i+pi2)%5])
+			}
+			base := honestTuple(c, st)
+			one := fr.One()
+			for _, mod := range []string{"honest", "y_last+1", "y of the second occurrence of B := the value of C at that index"} {
+				t := base.clone()
+				switch mod {
+				case "y_last+1":
+					t.ys[len(t.ys)-1].Add(&t.ys[len(t.ys)-1], &one)
+				case "y of the second occurrence of B := the value of C at that index":
+					bi2, ci := -1, -1
+					seenB := false
+					for i, ch := range pat {
+						if ch == 'B' {
+							if seenB {
+								bi2 = i
+							}
+							seenB = true
+						}
+						if ch == 'C' {
+							ci = i
+						}
+					}
+					if bi2 < 0 || ci < 0 {
+						continue
+					}
+					t.ys[bi2] = frFromBig(st.polys[ci].V[st.zs[bi2]])
+				}
+				desc := fmt.Sprintf("commitment pointers %s zs=%v :: %s", pat, st.zs, mod)
+				ok, err, ran := decideImplShared(r, c, t, desc)
+				if !ran {
+					continue
+				}
+				acc, shape := decideRef(t)
+				r.Evals++
+				r.Nontrivial++
+				if ok != acc || (err != nil) != shape {
+					vio(r, "c02.agree", "CheckMultiProof", desc, fmt.Sprintf("reference verifier: accepted=%v", acc), fmt.Sprintf("accepted=%v err=%v", ok, err))
+				}
+			}
+		}
+		r.Sample(map[string]interface{}{"pattern": "AABCB: openings 0,1 share the pointer of A; 2 and 4 share B; 3 is C", "variants": "honest; last y + 1; second B claims C's value"})
+	}})
 	us = append(us, core.Unit{Name: "shape errors", Run: func(ctx *core.Ctx, r *core.Result) {
 		needRef()
 		c := conf()
 		base := honestTuple(c, bases[2])
+		// history: after every malformed call, a fixed false claim must still be rejected and the honest
+		// tuple still accepted (nothing may survive from a call that ended with an error)
+		falseClaim := base.clone()
+		falseClaim.ys[0].Add(&falseClaim.ys[0], &[]fr.Element{fr.One()}[0])
+		nErr := 0
+		afterError := func(desc string) {
+			nErr++
+			first, second := base, falseClaim // alternate which of the two follows the failed call directly
+			if nErr%2 == 0 {
+				first, second = falseClaim, base
+			}
+			for _, t := range []tuple{first, second} {
+				honest := sameTuple(t, base)
+				ok, err, ran := decideImpl(r, c, t, "after "+desc)
+				if ran && (ok != honest || err != nil) {
+					vio(r, "c02.history", "CheckMultiProof", fmt.Sprintf("after %s: %s", desc, map[bool]string{true: "the honest tuple", false: "y_0+1 with the honest proof"}[honest]), fmt.Sprintf("(%v, nil)", honest), fmt.Sprintf("(%v, %v)", ok, err))
+				}
+			}
+		}
 		for lc := 0; lc <= 2; lc++ {
 			for ly := 0; ly <= 2; ly++ {
 				for lz := 0; lz <= 2; lz++ {
@@ -507,6 +608,9 @@ func c02Units(ctx *core.Ctx) []core.Unit {
 					}
 					if !wantErr && (err != nil || ok) {
 						vio(r, "c02.shape", "CheckMultiProof", desc, "(false, nil): well-shaped but not the proven statement", fmt.Sprintf("(%v, %v)", ok, err))
+					}
+					if wantErr {
+						afterError(desc)
 					}
 				}
 			}
@@ -535,6 +639,10 @@ func c02Units(ctx *core.Ctx) []core.Unit {
 					}
 				} else if err == nil || ok {
 					vio(r, "c02.shape", "CheckMultiProof", desc, "(false, error)", fmt.Sprintf("(%v, %v)", ok, err))
+				}
+				if ll != 8 || lr != 8 {
+					// a malformed proof carrying otherwise honest data, then the false claim
+					afterError(desc)
 				}
 				// the same through ipa.CheckIPAProof
 				var ok2 bool
